@@ -2,7 +2,7 @@
    schedulers/components did (global update trace, tick log, master tick real times).
    Independent of the simulation function of Model/Sim.v: only the configuration, the
    flattening defined here and the device table are used. *)
-From TV Require Import Base Model.Wiring Model.Ticker Model.Component Model.Sim Model.SimTime Model.Inline Oracle.SimCheck.
+From TV Require Import Base Model.Wiring Model.Ticker Model.Component Model.Sim Model.SimTime Model.Inline Model.NSim Oracle.SimCheck.
 Open Scope Z_scope.
 
 (* ---------- flattening a nested configuration (C09, C03) *)
@@ -338,7 +338,38 @@ Definition check_sim_c04 (c : sim_case) : list Z := check_sim c ++ oracle_c04 c.
 Definition sched_case := (sim_case * list sim_case)%type.
 Definition check_sim_obs (c : sim_case) : list Z :=
   filter (fun x => Z.eqb x 51 || Z.eqb x 52) (check_sim c).
+(* 23: on a flat simulation at speed 1 the schedule-explicit model (Model/NSim.v: the ticker of
+   Model/Ticker.v driven answer by answer, components answering in the order a strategy picks --
+   here the first and the last dispatched component) and the master model Model/Sim.v give some
+   device different observations *)
+Definition nsim_applies (c : sim_case) : bool :=
+  Z.eqb (sc_num c) 1 && Z.eqb (sc_den c) 1 && Nat.eqb (length (sc_cfg c)) 1
+  && forallb is_dev (l_order (level_of (sc_cfg c) 1%positive))
+  && match sc_pre c with [] => true | _ => false end.
+Definition nsim_obs (c : sim_case) (pick : list (comp * bool) -> option comp) : option (list obs) :=
+  let l := level_of (sc_cfg c) 1%positive in
+  match nsim_timed_from_start (l_conns l) (map fst (l_order l)) (table_dev (sc_devs c)) pick 400 4000 (sc_initial c)
+          (map (fun st : stimulus => (fst (fst (fst st)) + sc_initial c, snd (fst (fst st)))) (sc_stim c))
+          (sc_initial c + sc_end c) with
+  | Some (_, ob) => Some ob
+  | None => None
+  end.
+Definition check_nsim (c : sim_case) : list Z :=
+  if nsim_applies c then
+    match nsim_obs c pick_first, nsim_obs c pick_last with
+    | Some o1, Some o2 =>
+        if forallb (fun ck : comp * ckind =>
+                      seq_eqb (obs_of (fst ck) o1) (obs_of (fst ck) (model_obs c)) &&
+                      seq_eqb (obs_of (fst ck) o2) (obs_of (fst ck) (model_obs c)))
+                   (l_order (level_of (sc_cfg c) 1%positive))
+        then [] else [23]
+    | _, _ => [23]
+    end
+  else [].
+(* not a check: marks the cases on which [check_nsim] applies *)
+Definition nsim_scope (g : sim_case * list sim_case) : list Z := if nsim_applies (fst g) then [1] else [].
+
 Definition check_sched (g : sched_case) : list Z :=
   let '(r, ds) := g in
   check_sim_all r ++ flat_map check_sim_obs ds ++
-  (if forallb (fun d => same_devices r d && same_devices d r) ds then [] else [22]).
+  (if forallb (fun d => same_devices r d && same_devices d r) ds then [] else [22]) ++ check_nsim r.
